@@ -85,40 +85,17 @@ def emptySep (v : Val) : Bool := match v with | .undef => false | sv => (toStr e
 def devs (op : String) (how : String) (r0 : Recv) (rm : Recv) (args : List Val) : List String :=
   let value := C09.thisString env rm
   let a0 := argAt args 0
-  let a1 := argAt args 1
   let posUnit : Option Nat :=        -- the code unit the model's stringAt finds, for charAt-like ops
     if op = "index" then
       match rm with
-      | .strObj s =>
-        let idx : Int := stringToArrayIndex (toStr env a0)
-        if 0 ≤ idx ∧ idx < strLength s then some (strAt s idx.toNat) else none
+      | .strObj s => stringAt s (stringToArrayIndex (toStr env a0))
       | _ => none
-    else if coercible rm then
-      let idx : Int := (number env a0).i
-      if 0 ≤ idx ∧ idx < strLength value then some (strAt value idx.toNat) else none
+    else if coercible rm then stringAt value (number env a0).i
     else none
-  let charLike : Bool := op == "charAt" || op == "charCodeAt"
-  let hasPos : Bool := decide (args.length ≥ 2) && isNumArg a1
-  let n1 := number env a1
-  let tlen : Int := (toStr env a0).length
   let d : List (String × Bool) := [
     ("call_undefined_this", how == "C" && r0 == .val .undef),
     ("lone_surrogate", loneSurrogate r0),
-    ("charAt_fffd", (charLike || op == "index") && posUnit == some 0xFFFD),
     ("charAt_surrogate", (op == "charAt" || op == "index") && optSurr posUnit),
-    ("index_noncanonical", op == "index" && decide (stringToArrayIndex (toStr env a0) ≥ 0)
-        && (Spec.canonIndex (toStr env a0)).isNone),
-    ("rune_offsets", (op == "slice" || op == "substring" || op == "substr") && hasAstral value),
-    ("indexOf_byte_offset", op == "indexOf" && decide (args.length ≥ 2) &&
-        (let p : Nat := match toIntegerE env a1 with
-           | .ninf => 0 | .pinf => value.length | .fin i => if i < 0 then 0 else i.toNat
-         !isASCII (value.take p))),
-    ("lastIndexOf_nan", op == "lastIndexOf" && hasPos && isNaN (toFloat env.c5 a1)),
-    ("lastIndexOf_neginf", op == "lastIndexOf" && hasPos && toFloat env.c5 a1 == .inf true),
-    ("lastIndexOf_byte_offset", op == "lastIndexOf" && hasPos && !n1.isInf &&
-        (let s0 := if n1.i < 0 then 0 else n1.i
-         !isASCII (value.take (s0 + tlen).toNat))),
-    ("split_empty_sep_astral", op == "split" && emptySep a0 && hasAstral value),
     ("case_special", (op == "toLowerCase" && (U value).any (fun u => !isSurr u && Spec.lowerUnit u != [goLower u]))
         || (op == "toUpperCase" && (U value).any (fun u => !isSurr u && Spec.upperUnit u != [goUpper u]))),
     ("case_astral", (op == "toLowerCase" && (decodeRunes value).any (fun c => decide (c ≥ 0x10000) && goLower c != c))
